@@ -19,8 +19,14 @@ RULE = ("Well-shaped triangulated surfaces (min angle >= 8 deg): closed bases (t
         "(n_smooth=0), Hermitian Laplacian whose moduli are the scalar Laplacian's, flat connection = scalar Laplacian and "
         "trivial holonomy on embedded planar meshes, and invariance of the field measured against mesh edges in the connection's "
         "metric under vertex renumbering + face-start rotation (bordered, well-posed constraints). "
+        "Every field case also draws a uniform scale (1e-6..1e6, attach weight scaled by 1/scale^2), integer-typed coordinates "
+        "where they are integral, and the verbose switch; the mesh argument must come back unchanged. Sub-check 'sequence': 2-5 "
+        "fields (orders / elements / options differ, optionally the first one again) computed one after another on the SAME mesh "
+        "object, flag_singularities after each; every one of them must pass every oracle above and, on the constrained-solve "
+        "path, equal the field and the singularity indices obtained on a fresh mesh. The laplacian sub-check builds both element "
+        "kinds and both weightings on one mesh object and compares with a fresh mesh. "
         "non-trivial = the mesh has >=1 free element and (order != 4 or features on) [laplacian sub-check: an interior edge and "
-        "order != 4]; distinct = distinct realised cases.")
+        "order != 4; sequence: >=2 distinct (elements, order) steps and an interior edge]; distinct = distinct realised cases.")
 ASSUMPTIONS = [
     "triangulated oriented manifold surfaces, min angle >= 8 deg, max angle <= 170 deg; for a vertex field every vertex has a "
     "tangent plane (angle-weighted sum of incident unit face normals has norm >= 1e-3)",
@@ -36,6 +42,9 @@ ASSUMPTIONS = [
     "numbering invariance is asserted only where the constraints are well posed: no face with two constrained edges, no "
     "vertex angle at a rounding tie of the corner detector, no (near-)cancelling constraint sum, no dihedral angle at "
     "the feature threshold; face order is never permuted",
+    "integer-typed coordinate rows are used only for magnitudes below 1e5 (beyond, int64 products in numpy overflow silently)",
+    "sequence: a step on the eigen path (closed surface, no constraint) is not compared with a fresh mesh (degenerate lowest "
+    "eigenspaces make the vector picked depend on round-off); vertex-field flag_singularities is only a history step",
     "'planar' in the laplacian sub-check means embedded in the plane z=0 with one orientation (edge flips can fold a sheet over)",
 ]
 
@@ -935,14 +944,26 @@ def fn_laplacian(case, ctx):
     ctx.nontrivial(has_inner and order != 4)
     bv = set(ref.border_vertices())
 
-    for el in ("vertices", "faces"):
-        mesh = surface_from(V, F)
+    shared = surface_from(V, F)            # one mesh object for both element kinds and both weightings (cached attributes)
+    order_of_use = ("vertices", "faces") if case.get("flip") else ("faces", "vertices")
+    for el in order_of_use:
+        mesh = shared
         n = nV if el == "vertices" else nF
         lap = M.operators.laplacian if el == "vertices" else M.operators.laplacian_triangles
         ok, conn = ctx.call("connection:" + el, (C.SurfaceConnectionVertices if el == "vertices" else C.SurfaceConnectionFaces), mesh)
         if not ok: continue
+        ok, _other = ctx.call("laplacian:" + el, lap, mesh, cotan=not cotan, connection=conn, order=order)   # other weighting first
+        if not ok: continue
         ok, Lc = ctx.call("laplacian:" + el, lap, mesh, cotan=cotan, connection=conn, order=order)
         if not ok: continue
+        ok, Lfresh = ctx.call("laplacian:" + el, lap, surface_from(V, F), cotan=cotan,
+                              connection=(C.SurfaceConnectionVertices if el == "vertices" else C.SurfaceConnectionFaces)(surface_from(V, F)), order=order)
+        if ok:
+            Lc_, Lf_ = dense(Lc).astype(complex), dense(Lfresh).astype(complex)
+            ctx.check(Lc_.shape == Lf_.shape and float(np.max(np.abs(Lc_ - Lf_))) <= 1e-9 * max(1.0, float(np.max(np.abs(Lf_)))),
+                      "reused-mesh-laplacian-differs:" + el,
+                      f"connection Laplacian built on a mesh already used (other element kind / other weighting) differs from the one "
+                      f"built on a fresh mesh (order {order}, cotan {cotan})")
         ok, Ls = ctx.call("laplacian-scalar:" + el, lap, mesh, cotan=cotan)
         if not ok: continue
         Lc = dense(Lc).astype(complex); Ls = dense(Ls).astype(complex)
@@ -1030,11 +1051,11 @@ def self_test():
 
 
 SUBCHECKS = [
-    SubCheck("field", field_case(), fn_field, quick=3000, thorough=8000),
-    SubCheck("sequence", sequence_case(), fn_sequence, quick=500, thorough=1500),
-    SubCheck("renumber_vertices", renumber_case("vertices"), fn_renumber, quick=600, thorough=1500),
-    SubCheck("renumber_faces", renumber_case("faces"), fn_renumber, quick=600, thorough=1500),
-    SubCheck("laplacian", laplacian_case(), fn_laplacian, quick=800, thorough=1500),
+    SubCheck("field", field_case(), fn_field, quick=2000, thorough=8000),
+    SubCheck("sequence", sequence_case(), fn_sequence, quick=320, thorough=1500),
+    SubCheck("renumber_vertices", renumber_case("vertices"), fn_renumber, quick=400, thorough=1500),
+    SubCheck("renumber_faces", renumber_case("faces"), fn_renumber, quick=400, thorough=1500),
+    SubCheck("laplacian", laplacian_case(), fn_laplacian, quick=480, thorough=1500),
 ]
 
 
